@@ -67,7 +67,7 @@ func init() {
 		}
 		close(start)
 		wg.Wait()
-		tol := oracle.DefaultTol(Scale(c.Series))
+		tol := TolOf(c)
 		shapes := map[string]bool{}
 		for i, a := range qs {
 			shapes[a.Query] = true
